@@ -58,6 +58,13 @@ def register_money(rec):
         r = Money(int(value))
         rec["cenc"].append((r, "Money", value))
         return r
+    # a codec upgrade: the type was registered before with another pair; the latest registration is the registry's entry
+    async def enc_old(value, *a, **k):
+        return b"v0:" + str(value.a + 1).encode()
+
+    async def dec_old(value, *a, **k):
+        return Money(-424242)
+    register_type(Money, enc_old, dec_old)
     register_type(Money, enc, dec)
 
 
